@@ -189,3 +189,67 @@ def verify_function(ex, qualname, contract, make_env, frame_obj='self',
                   reason=unit.error)
     cx.prefix = ''
     return unit
+
+
+def verify_block(ex, qualname, select, make_env, post, tag='', raises=None,
+                 loops=None):
+    """Verify a contiguous block of statements of a function: `select(fnode)`
+    returns the statement list (mechanically taken from the real AST on every
+    run); make_env builds the symbolic locals at block entry (the block's
+    precondition); post(old_state, exit_state) -> [(name, formula)].
+    What this drops: the statements of the function outside the block; the
+    link between them and the block's precondition is an assumption that must
+    be discharged by another unit or listed."""
+    import ast as _ast
+    cx = ex.cx
+    fs = ex.fe.get(qualname)
+    cx.prefix = short(qualname) + tag + '/'
+    st = State()
+    n_before = len(cx.obligations)
+    unit = Unit(qualname)
+    try:
+        st.env = make_env(ex, st)
+        stmts = select(fs.node)
+        if not stmts:
+            raise OutsideSubset('block not found in ' + qualname)
+        cx.line = stmts[0].lineno
+        cx.cover(st, 'pre_satisfiable')
+        old = st.copy()
+        old.env = dict(st.env)
+        saved = (ex.cur_fn, ex.loop_specs, ex.loop_ord)
+        ex.cur_fn = fs
+        ex.loop_specs = loops or {}
+        from .frontend import loops_of
+        ex.loop_ord = {id(n): k for k, n in enumerate(loops_of(fs.node))}
+        for n in stmts:
+            for sub in _ast.walk(n):
+                if isinstance(sub, _ast.If):
+                    key = _ast.unparse(sub.test)[:80]
+                    ex.branch_all.add((fs.qualname, key, True))
+                    ex.branch_all.add((fs.qualname, key, False))
+        try:
+            outs = ex.exec_block(stmts, [st])
+        finally:
+            ex.cur_fn, ex.loop_specs, ex.loop_ord = saved
+        unit.paths = len(outs)
+        for o in outs:
+            cx.line = stmts[-1].end_lineno
+            if o.status in ('return', 'normal'):
+                cx.cover(o, 'exit_reachable/' + '.'.join(o.trace[-6:]))
+                for (nm, f) in post(old, o):
+                    cx.oblige(o, 'post/' + nm, f, kind='post')
+            elif o.status == 'raise':
+                if raises is not None:
+                    for (nm, f) in raises(old, o, o.exc):
+                        cx.oblige(o, 'raises/' + nm, f, kind='raises')
+                else:
+                    cx.oblige(o, 'no_raise/{}'.format(o.exc), z3.BoolVal(False),
+                              kind='no_raise', exc=o.exc)
+    except OutsideSubset as e:
+        del cx.obligations[n_before:]
+        line = getattr(e.node, 'lineno', cx.line)
+        unit.error = 'OutsideSubset: {} (line {})'.format(e, line)
+        cx.oblige(State(), 'in_subset', z3.BoolVal(False), kind='in_subset',
+                  reason=unit.error)
+    cx.prefix = ''
+    return unit
